@@ -44,6 +44,20 @@ def align_cases(ctx: Ctx):
         else:
             b = [rng.randrange(k) for _ in range(lb)]
         pairs.append((a, b))
+    # long sequences: an insertion / removal in the middle and changes on both sides of it (prefix / suffix stripping cannot
+    # absorb the unchanged elements; the alignment matrix has thousands of cells)
+    for _ in range(6 if not ctx.thorough else 40):
+        n = rng.randint(66, 110)
+        a = [rng.randrange(50) for _ in range(n)]
+        b = list(a)
+        b[0] = 99
+        b[-1] = 98
+        for _ in range(rng.randint(1, 3)):
+            if rng.random() < 0.5:
+                del b[rng.randint(2, len(b) - 3)]
+            else:
+                b.insert(rng.randint(2, len(b) - 2), 97)
+        pairs.append((a, b))
     return pairs
 
 
@@ -233,6 +247,59 @@ def seq_oracle(case, out):
     return None
 
 
+# ----------------------------------------------------------------------------- D: values that are == but of another type
+def gen_xtype_case(rng, i):
+    n = rng.randint(2, 5)
+    olds = [rng.randint(0, 3) for _ in range(n)]
+    news = []
+    for v in olds:
+        r = rng.random()
+        if r < 0.3:
+            news.append(float(v))                       # 1 == 1.0
+        elif r < 0.45 and v in (0, 1):
+            news.append(bool(v))                        # 1 == True
+        elif r < 0.75:
+            news.append(v)
+        else:
+            news.append(v + 10)                         # a real change somewhere (so that fix has something to do)
+    if all(a == b for a, b in zip(olds, news)):
+        news[-1] = olds[-1] + 10
+    kind = ["list", "tuple", "dict"][i % 3]
+    texts = [render_atom(v, False) for v in olds]
+    if kind == "dict":
+        old_src = "{" + ", ".join(f"'k{j}': {t}" for j, t in enumerate(texts)) + "}"
+        new_src = "{" + ", ".join(f"'k{j}': {v!r}" for j, v in enumerate(news)) + "}"
+    else:
+        old_src = render_seq(texts, kind == "tuple")
+        new_src = render_seq([repr(v) for v in news], kind == "tuple")
+    src = f"from inline_snapshot import snapshot\n\ndef test_a():\n    assert {new_src} == snapshot({old_src})\n"
+    return {"source": src, "olds": olds, "news": news, "texts": texts, "kind": kind}
+
+
+def run_xtype_case(c):
+    res = driver.run_inproc({"test_a.py": c["source"]}, ("fix",))
+    after = res["files"]["test_a.py"].decode()
+    out = {"after": after, "session_exc": res["session_exc"]}
+    try:
+        arg = find_snapshot_arg(after)
+        elts = arg.values if isinstance(arg, ast.Dict) else arg.elts
+        out["texts"] = [ast.get_source_segment(after, e) for e in elts]
+    except Exception as e:  # noqa
+        out["error"] = f"{type(e).__name__}: {e}"
+    return out
+
+
+def xtype_oracle(c, o):
+    if o["session_exc"] or "error" in o:
+        return f"run failed: {o['session_exc'] or o.get('error')}"
+    if len(o["texts"]) != len(c["olds"]):
+        return f"number of elements changed: {c['texts']} -> {o['texts']}"
+    for old, new, t0, t1 in zip(c["olds"], c["news"], c["texts"], o["texts"]):
+        if old == new and t0 != t1:
+            return f"element {t0} (== {new!r}, unchanged) was rewritten to {t1} by a fix-only run: {c['texts']} -> {o['texts']}"
+    return None
+
+
 def g_seq_case(case, out):
     return g_pair(g_flags(case["flags"]),
                   g_list(case["old"], lambda e: g_pair(g_Z(e[0]), g_bool(e[1]))),
@@ -398,13 +465,22 @@ def run(ctx: Ctx):
     ctx.coverage["rule"] = (
         "A: (a,b) integer sequences: exhaustive up to a small length plus random edit pairs; align/add_x of the implementation vs Model/Align.v evaluated in Coq. "
         "B: flat list/tuple snapshots with canonical and hand-written leaves x new values x flag sets, run through the real code; resulting element texts and reported "
-        "categories vs Model/SeqAssign.v; independent oracle: value, verbatim prefix/suffix, survivors >= LCS. C: dict / dataclass / nested lists under fix only (oracle). "
+        "categories vs Model/SeqAssign.v; independent oracle: value, verbatim prefix/suffix, survivors >= LCS. C: dict / dataclass / nested lists under fix only (oracle). D: containers whose new elements are == to the old ones but of another type "
+        "(1 vs 1.0 vs True) next to a real change, fix only: the equal elements keep their text. Long sequences (66-110 elements) with an indel between two changes in A. "
         "distinct = distinct (inputs, flags); non-trivial = sequences differ and have >= 2-3 elements")
     ctx.assumptions += ["Python == on the generated element values is integer equality", "asttokens/ast source segments identify element texts"]
     proof_step(ctx)
     corr_align(ctx)
     corr_seq(ctx, 500 if not ctx.thorough else 5000)
     oracle_containers(ctx, 200 if not ctx.thorough else 2000)
+    nx = 90 if not ctx.thorough else 900
+    xc = [gen_xtype_case(ctx.rng, i) for i in range(nx)]
+    for c, o in zip(xc, pmap(run_xtype_case, xc, chunksize=8)):
+        ctx.count(("xtype", c["source"]), True)
+        why = xtype_oracle(c, o)
+        if why:
+            ctx.report("C11 oracle: " + why, {"kind": "xtype", "case": c})
+    ctx.coverage["oracle"]["equal_values_of_another_type"] = nx
 
 
 def replay(ctx: Ctx, data):
@@ -429,6 +505,11 @@ def replay(ctx: Ctx, data):
         why, after = run_container_case(case["case"])
         print(after)
         print("oracle:", why)
+        return why is None
+    if k == "xtype":
+        o = run_xtype_case(case["case"])
+        why = xtype_oracle(case["case"], o)
+        print(o.get("after"), "oracle:", why)
         return why is None
     print("nothing to replay for", k)
     return True
